@@ -110,9 +110,20 @@ func runC02FileWriter(c encCase) (bool, []string, error) {
 	if err != nil {
 		return false, nil, fmt.Errorf("NewFileWriter: %v", err)
 	}
-	var out bytes.Buffer
+	var out, mirror bytes.Buffer
+	mode := (len(rows) + len(c.Records)) % 3
+	if mode == 1 {
+		// the header rendered once more beforehand (a caller that wants to know its size)
+		_ = fw.AppendHeader(nil)
+	}
 	if err := fw.WriteHeader(&out); err != nil {
 		return false, nil, fmt.Errorf("WriteHeader: %v", err)
+	}
+	if mode == 2 {
+		// one FileWriter, two destinations (a local copy and an upload): header and every block go to both
+		if err := fw.WriteHeader(&mirror); err != nil {
+			return false, nil, fmt.Errorf("WriteHeader (second destination): %v", err)
+		}
 	}
 	start, first, nblocks := 0, 0, 0
 	for i := range c.Records {
@@ -123,6 +134,11 @@ func runC02FileWriter(c encCase) (bool, []string, error) {
 		// rows first..i are one block: a window of the buffer, the later rows right behind it
 		if err := fw.WriteBlock(&out, i-first+1, rows[start:ends[i]]); err != nil {
 			return false, nil, fmt.Errorf("WriteBlock: %v", err)
+		}
+		if mode == 2 {
+			if err := fw.WriteBlock(&mirror, i-first+1, rows[start:ends[i]]); err != nil {
+				return false, nil, fmt.Errorf("WriteBlock (second destination): %v", err)
+			}
 		}
 		start, first = ends[i], i+1
 		nblocks++
@@ -147,6 +163,16 @@ func runC02FileWriter(c encCase) (bool, []string, error) {
 	}
 	if len(blocks) != nblocks {
 		return nt, labels, fmt.Errorf("%d blocks written, file holds %d", nblocks, len(blocks))
+	}
+	if mode == 2 {
+		labels = append(labels, "filewriter_two_destinations")
+		_, _, mb, err := ref.ReadRecords(mirror.Bytes())
+		if err != nil {
+			return nt, labels, fmt.Errorf("reference reader rejects the second destination's file (same FileWriter, same header and blocks): %w", err)
+		}
+		if len(mb) != nblocks {
+			return nt, labels, fmt.Errorf("%d blocks written to the second destination, its file holds %d", nblocks, len(mb))
+		}
 	}
 	var datums []ref.Datum
 	for _, b := range blocks {
